@@ -13,8 +13,9 @@ Record obs_packet := {
 
 Record obs_case := {
   oc_prog : program;
-  oc_full : bool;                                  (* built through the production path WITH the rule optimizers: the
-                                                      match-set array is then not comparable, decisions are *)
+  oc_full : bool;                                  (* decisions come from the production path WITH the rule optimizers; the
+                                                      dumps and the bitmap oracle come from the plain builder of the
+                                                      same parsed program (same match-set indexing as the model) *)
   oc_build : N;                                    (* 0 = built; else error class of the implementation *)
   oc_msets : list mset;                            (* dump of builder.compiledRules *)
   oc_tries : list (list prefix128);                (* dump of builder.simulatedLpmTries *)
@@ -75,8 +76,8 @@ Definition check_case (c : obs_case) : list (N * N) :=
     | Err e => (if oc_build c =? e then [] else [(0, 5)]) ++ (if wf then [(0, 3)] else []) ++ rejected
     | Ok mt =>
       if negb (oc_build c =? 0) then (0, 5) :: rejected else
-      (if oc_full c || (all2 mset_eqb (b_rules b) (oc_msets c) && all2 (all2 px_eqb) (b_tries b) (oc_tries c)
-          && all2 domset_eqb (b_domsets b) (oc_domsets c)) then [] else [(0, 4)]) ++
+      (if all2 mset_eqb (b_rules b) (oc_msets c) && all2 (all2 px_eqb) (b_tries b) (oc_tries c)
+          && all2 domset_eqb (b_domsets b) (oc_domsets c) then [] else [(0, 4)]) ++
       check_packets p wf mt (oc_packets c)
     end
   end.
